@@ -381,3 +381,97 @@ def random_doc(rng, n):
             body.append(El('path').add(rng.choice(['marker-start', 'marker-mid', 'marker-end']), ids[i]))
     rng.shuffle(body)
     return number(El('svg', kids=extra_witnesses(body)))
+
+
+# ---------------------------------------------------------------------------------------------------------
+# extension round 4: documents nested through image / feImage references (Model/LinksNest.v)
+# abstract: href = ('P', file index) | ('D', [href..]); a file system = list of (list of hrefs | None)
+# ---------------------------------------------------------------------------------------------------------
+import base64 as _b64
+
+NEST_HEAD = '<svg xmlns="http://www.w3.org/2000/svg" xmlns:xlink="http://www.w3.org/1999/xlink" width="100" height="100">'
+
+
+def nest_path(dirp, i):
+    return "%s/f%d.svg" % (dirp, i)
+
+
+def nest_svg(hrefs, dirp, top=False, fe_last=False):
+    """SVG text of a document whose external references are `hrefs` (one line)."""
+    out = [NEST_HEAD, '<rect x="1" y="1" width="5" height="5" fill="#0a0b0c"/>']
+    for j, h in enumerate(hrefs):
+        if h[0] == 'P':
+            ref = nest_path(dirp, h[1])
+        else:
+            ref = "data:image/svg+xml;base64," + _b64.b64encode(nest_svg(h[1], dirp).encode()).decode()
+        if fe_last and j == len(hrefs) - 1:
+            out.append('<filter id="nf%d" x="0" y="0" width="1" height="1"><feImage xlink:href="%s"/></filter>'
+                       '<rect x="40" y="40" width="10" height="10" filter="url(#nf%d)"/>' % (j, ref, j))
+        else:
+            out.append('<image x="%d" y="10" width="8" height="8" xlink:href="%s"/>' % (10 + 9 * j, ref))
+    if top:
+        out.append(WITNESS)
+    out.append('</svg>')
+    return "".join(out)
+
+
+def nest_coq_href(h):
+    if h[0] == 'P':
+        return "HPath %d" % h[1]
+    return "HData [%s]" % "; ".join(nest_coq_href(x) for x in h[1])
+
+
+def nest_coq(files, top):
+    fs = "; ".join("None" if f is None else "Some [%s]" % "; ".join(nest_coq_href(h) for h in f) for f in files)
+    return "([%s]%%list, [%s]%%list)" % (fs, "; ".join(nest_coq_href(h) for h in top))
+
+
+def nest_random_href(rng, nfiles, depth):
+    if depth < 3 and rng.below(3) == 0:
+        return ('D', [nest_random_href(rng, nfiles, depth + 1) for _ in range(rng.below(3))])
+    return ('P', rng.below(nfiles + 1))          # index nfiles = a file that does not exist
+
+
+def nest_family(rng, nrand):
+    """[(label, files, top hrefs, feImage for the last reference?)]"""
+    P, D = (lambda i: ('P', i)), (lambda l: ('D', l))
+    fam = [
+        ("file includes itself", [[P(0)]], [P(0)], False),
+        ("file includes itself twice, entered twice", [[P(0), P(0)]], [P(0), P(0)], False),
+        ("two files include each other", [[P(1)], [P(0)]], [P(0), P(1)], False),
+        ("three files in a ring", [[P(1)], [P(2)], [P(0)]], [P(0)], False),
+        ("data: document three levels deep", [], [D([D([D([])])])], False),
+        ("data: document that includes a file that includes itself", [[P(0), D([P(0)])]], [D([P(0)]), P(0)], False),
+        ("feImage of a file that includes itself", [[P(0)]], [P(0), P(0)], True),
+        ("missing file", [[P(5)]], [P(0), P(7)], False),
+        ("no reference", [], [], False),
+    ]
+    for i in range(nrand):
+        nfiles = 1 + rng.below(4)
+        files = [[nest_random_href(rng, nfiles, 0) for _ in range(rng.below(4))] for _ in range(nfiles)]
+        top = [nest_random_href(rng, nfiles, 0) for _ in range(1 + rng.below(4))]
+        fam.append(("random file system %d" % i, files, top, rng.below(3) == 0))
+    return fam
+
+
+def nest_parse(s):
+    """'[[]][]' -> Coq `LT [LT [LT []]; LT []]` (None when malformed)"""
+    pos = [0]
+
+    def seq():
+        items = []
+        while pos[0] < len(s) and s[pos[0]] == '[':
+            pos[0] += 1
+            inner = seq()
+            if pos[0] >= len(s) or s[pos[0]] != ']':
+                raise ValueError(s)
+            pos[0] += 1
+            items.append("LT [%s]" % "; ".join(inner))
+        return items
+    try:
+        items = seq()
+        if pos[0] != len(s):
+            return None
+        return "LT [%s]" % "; ".join(items)
+    except ValueError:
+        return None
